@@ -53,6 +53,43 @@ pub struct Acc {
 
 pub const MAX_SAMPLES: usize = 6;
 
+/// Violations of one exploration, kept per signature (only the smallest counterexample of each
+/// signature is retained, so a tree in which every execution fails does not eat the memory).
+#[derive(Default)]
+pub struct ViolSet {
+    pub map: BTreeMap<String, (String, (usize, usize), u64, Vec<u32>)>,
+}
+
+impl ViolSet {
+    pub fn new() -> ViolSet {
+        ViolSet::default()
+    }
+    pub fn add(&mut self, sig: String, msg: String, rank: (usize, usize), choices: &[u32]) {
+        match self.map.get_mut(&sig) {
+            Some(e) => {
+                e.2 += 1;
+                if rank < e.1 {
+                    e.0 = msg;
+                    e.1 = rank;
+                    e.3 = choices.to_vec();
+                }
+            }
+            None => {
+                self.map.insert(sig, (msg, rank, 1, choices.to_vec()));
+            }
+        }
+    }
+    /// Move everything into `acc`; `replay` builds the replay JSON from the choice vector.
+    pub fn drain_into(self, acc: &mut Acc, replay: impl Fn(&[u32]) -> Value) {
+        for (sig, (msg, rank, count, choices)) in self.map {
+            acc.violation(sig.clone(), msg, rank, || replay(&choices));
+            if let Some(v) = acc.violations.get_mut(&sig) {
+                v.count += count - 1;
+            }
+        }
+    }
+}
+
 impl Acc {
     pub fn new() -> Acc {
         Acc::default()
